@@ -105,6 +105,78 @@ func VH_C14_sweeper() {
 	vobs("sweep", delta, len(log))
 }
 
+// VH_C14_sweep_collections: one sweep over several collections: every object whose deadline has passed is removed
+// (and logged), wherever it lives - a deadline still in the future in one collection does not shield due objects
+// in the collections behind it -, and a collection whose last object expires disappears from KEYS.
+//verif:cfg b_collections=3 b_objects=5_(deadlines_each_5s|3600s,_one_without_deadline,_one_alone_in_its_collection) b_now=any_whole_second_from_3s_before_to_40s_after_the_first_deadline ignorego=1
+func VH_C14_sweep_collections() {
+	s := vhServer()
+	s.aof = new(os.File)
+	exs := [2]string{"5", "3600"}
+	type ent struct{ key, id string }
+	ents := [5]ent{{"ka", "x"}, {"ka", "y"}, {"kb", "x"}, {"kb", "y"}, {"kc", "x"}}
+	var ex [5]int
+	for i, e := range ents {
+		if i == 3 {
+			vhDo(s, "SET", e.key, e.id, "POINT", "1", "2") // kb/y never expires
+			ex[i] = -1
+			continue
+		}
+		ex[i] = vchoose(2)
+		if i%2 == 0 {
+			vhDo(s, "SET", e.key, e.id, "EX", exs[ex[i]], "POINT", "1", "2")
+		} else {
+			vhDo(s, "SET", e.key, e.id, "EX", exs[ex[i]], "STRING", "v")
+		}
+	}
+	var dl [5]int64
+	for i, e := range ents {
+		dl[i], _ = vhDeadline(s, e.key, e.id)
+	}
+	first := dl[0]
+	if ex[0] == 1 {
+		first = dl[0] - 3595*1000000000
+	}
+	delta := vnondetInt64()
+	vassume(delta >= -3 && delta <= 40)
+	now := time.Unix(first/1000000000+delta, 0)
+	nowNS := now.UnixNano()
+	s.aofbuf = nil
+
+	s.backgroundExpireObjects(now)
+
+	log := string(s.aofbuf)
+	anyDue := false
+	left := map[string]int{}
+	for i, e := range ents {
+		_, still := vhDeadline(s, e.key, e.id)
+		due := dl[i] != 0 && dl[i] <= nowNS
+		if due {
+			anyDue = true
+		} else {
+			left[e.key]++
+		}
+		vassert("C14.sweep_reaches_every_collection", still == !due)
+		vassert("C14.expiry_is_a_logged_del", strings.Contains(log, string(vhEncode("del", e.key, e.id))) == due)
+	}
+	r, _, _ := vhDo(s, "KEYS", "*")
+	var keys []string
+	for _, v := range r.Array() {
+		keys = append(keys, v.String())
+	}
+	var want []string
+	for _, k := range []string{"ka", "kb", "kc"} {
+		if left[k] > 0 {
+			want = append(want, k)
+		}
+	}
+	vassert("C14.collection_disappears_with_its_last_object", strings.Join(keys, ",") == strings.Join(want, ","))
+	if anyDue {
+		vreach("sweep-some-due")
+	}
+	vobs("sweepcols", delta, ex[0], ex[1], ex[2], ex[4], strings.Join(keys, ","))
+}
+
 // VH_C14_ttl: TTL reports the remaining whole seconds, -1 without deadline.
 //verif:cfg b_ex=1,10,100,3600,1.9,10.5 b_expire=the_same_six_values_on_a_point_and_on_a_string ignorego=1
 func VH_C14_ttl() {
